@@ -9,6 +9,8 @@ import PyAbel.Model.Center
 import PyAbel.Model.Pipeline
 import PyAbel.Model.Dispatch
 import PyAbel.Model.Dasch
+import PyAbel.Model.Cache
+import PyAbel.Model.Npy
 open PyAbel PyAbel.Proto
 
 def axOfNat : Nat → Option SymAxis
@@ -40,6 +42,89 @@ def namedMatrix : String → Option (Nat → Nat → Float)
   | "daun0" => some (fun j i => daun0 j i)              -- A[j,i]
   | "daun0T" => some (fun i j => daun0 j i)             -- U = Aᵀ
   | _ => none
+
+/-! cache machines: keys cross the protocol as comma-separated naturals -/
+section CacheProto
+open PyAbel.Cache
+
+def parseKeyNats (s : String) : Option (List Nat) := (s.splitOn ",").mapM String.toNat?
+
+def fileStateOfNat : Nat → Option FileState
+  | 0 => some .valid | 1 => some .corruptValueError | 2 => some .corruptOther | _ => none
+
+def fileStateIdx : FileState → Nat | .valid => 0 | .corruptValueError => 1 | .corruptOther => 2
+
+structure KeyCodec (K : Type) where
+  dec : List Nat → Option K
+  enc : K → List Nat
+
+def daschCodec : KeyCodec DaschKey where
+  dec | [m, c] => (match m with
+                    | 0 => some DaschMethod.two_point | 1 => some DaschMethod.three_point
+                    | 2 => some DaschMethod.onion_peeling | _ => none).map (⟨·, c⟩)
+      | _ => none
+  enc k := [match k.method with | .two_point => 0 | .three_point => 1 | .onion_peeling => 2, k.cols]
+
+def daunCodec : KeyCodec DaunKey := ⟨fun | [n, d] => some ⟨n, d⟩ | _ => none, fun k => [k.n, k.degree]⟩
+def basexCodec : KeyCodec BasexKey := ⟨fun | [n, s] => some ⟨n, s⟩ | _ => none, fun k => [k.n, k.sigma]⟩
+def linbasexCodec : KeyCodec LinbasexKey :=
+  -- orders / angles cross as (label, count): the list is `label :: replicate (count-1) 0`
+  ⟨fun | [c, o, no, a, na, st, cl] => some ⟨c, o :: List.replicate (no - 1) 0, a :: List.replicate (na - 1) 0, st, cl⟩
+       | _ => none,
+   fun k => [k.cols, k.orders.headD 0, k.orders.length, k.angles.headD 0, k.angles.length, k.step, k.clip]⟩
+def rbasexCodec : KeyCodec RbasexKey :=
+  ⟨fun | [r, o, odd, inv] => some ⟨r, o, odd != 0, inv != 0⟩ | _ => none,
+   fun k => [k.rmax, k.order, k.odd.toNat, k.inv.toNat]⟩
+
+def showKey (xs : List Nat) : String := ",".intercalate (xs.map toString)
+
+def parseOp {K : Type} (c : KeyCodec K) (toks : List String) : Option (Op K) :=
+  match toks with
+  | ["c", k, d] => do let k ← parseKeyNats k >>= c.dec; let d ← parseBool d; pure (.call k d)
+  | ["x"] => some .cacheCleanup
+  | ["D"] => some .dirCleanup
+  | ["g", k, st] => do let k ← parseKeyNats k >>= c.dec; let st ← st.toNat? >>= fileStateOfNat; pure (.damage k st)
+  | ["r", k] => do let k ← parseKeyNats k >>= c.dec; pure (.remove k)
+  | ["p", k] => do let k ← parseKeyNats k >>= c.dec; pure (.publish k)
+  | _ => none
+
+/-- run a history; after every op print  outcome | memory key | sorted directory listing -/
+def runHistory {K : Type} [DecidableEq K] (R : Rules K) (c : KeyCodec K) (ops : List (List String)) : String :=
+  let rec go (s : State K) (ops : List (List String)) (acc : List String) : Option (List String) :=
+    match ops with
+    | [] => some acc.reverse
+    | o :: rest =>
+      match parseOp c o with
+      | none => none
+      | some op =>
+        let (s', out) := step R s op
+        let os := match out with
+          | none => "-"
+          | some (.ok d src) => s!"ok:{showKey (c.enc d.gen)}:{showKey (c.enc d.view)}:{src}"
+          | some .raised => "raised"
+        let ms := match s'.mem with | none => "m:-" | some (k, _) => s!"m:{showKey (c.enc k)}"
+        let files := (s'.disk.map fun f => s!"{showKey (c.enc f.1)}={fileStateIdx f.2}").toArray.qsort (· < ·) |>.toList
+        go s' rest (s!"{os}|{ms}|f:{";".intercalate files}" :: acc)
+  match go State.init ops [] with
+  | none => "bad-op"
+  | some outs => "ok " ++ " ".intercalate outs
+
+def cacheHistory (module : String) (ops : List (List String)) : String :=
+  match module with
+  | "dasch" => runHistory daschRules daschCodec ops
+  | "daun" => runHistory daunRules daunCodec ops
+  | "basex" => runHistory basexRules basexCodec ops
+  | "linbasex" => runHistory linbasexRules linbasexCodec ops
+  | "rbasex" => runHistory rbasexRules rbasexCodec ops
+  | _ => "bad-op"
+
+/-- split a token list on the separator token "/" -/
+def splitOps (toks : List String) : List (List String) :=
+  let (cur, acc) := toks.foldl (fun (p : List String × List (List String)) t =>
+    if t == "/" then ([], p.1.reverse :: p.2) else (t :: p.1, p.2)) ([], [])
+  ((cur.reverse :: acc).reverse).filter (· ≠ [])
+
+end CacheProto
 
 def showImg (im : Img Float) : String :=
   s!"ok {im.rows} {im.cols} " ++ showFloats im.toList
@@ -77,6 +162,25 @@ def handle (toks : List String) : String :=
       if !admissible ax m then "raise" else
       showImg (transformQuadrants stubT (Img.ofArray r c 0.0 xs) ax m)
     | _, _, _, _, _, _, _, _ => "bad-op"
+  -- npy <hex bytes>   →  verdict of the .npy decoder on a byte string
+  | ["npy", hex] =>
+    let cs := hex.toList
+    if cs.length % 2 ≠ 0 then "bad-op" else
+    let rec bytes : List Char → Option (List UInt8)
+      | a :: b :: rest => do
+        let x ← hexDigit a; let y ← hexDigit b; let t ← bytes rest
+        pure (UInt8.ofNat (16 * x + y) :: t)
+      | [] => some []
+      | _ => none
+    match bytes cs with
+    | none => "bad-op"
+    | some bs =>
+      match PyAbel.Npy.decode PyAbel.Npy.parseShape bs with
+      | .ok shape body => s!"ok {" ".intercalate (shape.map toString)} | {body.length}"
+      | .error => "error"
+  | ["npy"] => "error"
+  -- cache module op / op / …   →  history of the basis-cache state machine
+  | "cache" :: module :: rest => cacheHistory module (splitOps rest)
   -- mat name n   →  n×n entries of a model matrix
   | ["mat", name, n] =>
     match namedMatrix name, n.toNat? with
